@@ -133,6 +133,16 @@ class Part(ReadBase):
                 blk = rng.choice(['7', '511', '512', '513', '10240', 'r%d' % rng.randrange(1, 999), 'c%d' % rng.randrange(0, 3000)]) if v.startswith('cb') else 'w'
                 ops.append(f'run blk={blk} src={v} cons={cons} trunc=- fault=-')
             yield Case(f'part:made:{label}:{cls}', ops, {'cls': cls})
+        # multi-volume sets whose border falls inside a member that is skipped, not read
+        for i in range(10 if tier == 'quick' else 120):
+            fmt = rng.choice(['ustar', 'pax', 'gnutar', 'newc', 'odc', 'v7tar'])
+            cons = rng.choice(['S', 'N', 'S,A', 'N,A,S'])
+            ops = [f'make fmt={fmt} filt=none seed={rng.randrange(1, 10**6)} n={rng.choice([4, 8])}',
+                   f'run blk=w src=cbk cons={cons} trunc=- fault=-']
+            for _ in range(4 if tier == 'quick' else 12):
+                ops.append(f'run blk=w src=multi:{rng.randrange(1, 400000)} cons={cons} trunc=- fault=-')
+            ops.append(f'run blk=w src=file:10240 cons={cons} trunc=- fault=-')
+            yield Case(f'part:multiskip:{fmt}:{i}', ops, {'cls': 'K'})
         # gzip members with optional header fields, block borders inside the header
         d = os.path.join(core.OUT, 'scratch', 'mut'); os.makedirs(d, exist_ok=True)
         tars = [p for n_, p in ref_pool(rng, 10 ** 6, 30000) if n_.endswith('.tar')]
@@ -328,6 +338,29 @@ class Rd(ReadBase):
             blk = rng.choice(['w', '1', '7', '512', 'r3']) if len(data) < 20000 else rng.choice(['w', '512', 'r3'])
             cons = rng.choice(['A', 'a', 'B', 'A,S,B', 'N', 'P10,a'])
             yield Case(f'rd:{name}:{i}', ['load ' + mp, f'run blk={blk} src={src} cons={cons} trunc=- fault=-'], {'file': mp})
+        # header sweep: one small representative per format family, single damaged bytes in the fixed
+        # header (length, count and size fields live there) combined with a cut just behind it
+        fams = {}
+        for n_, p_ in sorted(pool):
+            m = re.match(r'test_(?:read_format|compat|read_filter|fuzz)?_?([a-z0-9]+)', n_)
+            ext = n_.rsplit('.', 1)[-1]
+            key = (m.group(1) if m else '') + '.' + ext
+            if key not in fams or os.path.getsize(p_) < os.path.getsize(fams[key]):
+                fams[key] = p_
+        reps = sorted(fams.values())
+        rng.shuffle(reps)
+        for p_ in reps[:(24 if tier == 'quick' else len(reps))]:
+            size = os.path.getsize(p_)
+            ops = ['load ' + p_]
+            for _ in range(25 if tier == 'quick' else 400):
+                off = rng.randrange(0, min(size, 80))
+                val = rng.choice([255, 255, 200, 127, 128, 0, 1, 64])
+                pk = f'{off}:{val}'
+                if rng.random() < 0.3:
+                    pk += f',{min(size - 1, off + 1)}:{rng.choice([255, 0, 127])}'
+                tr = rng.choice(['-', '-', str(min(size, off + rng.randrange(1, 40))), str(min(size, rng.choice([21, 27, 28, 32, 60, 64, 100, 512])))])
+                ops.append(f'run blk={rng.choice(["w", "w", "7", "512"])} src={rng.choice(["cb", "cbk"])} cons={rng.choice(["A", "B", "S"])} trunc={tr} fault=- poke={pk}')
+            yield Case(f'rd:sweep:{os.path.basename(p_)}', ops)
         tars = [p for n_, p in pool if n_.endswith('.tar') and os.path.getsize(p) < 30000]
         for i in range(25 if tier == 'quick' else 300):
             gz, hl = gzip_with_fields(rng, open(rng.choice(tars), 'rb').read())
